@@ -19,6 +19,10 @@ C1 == {n_sel_a, <<49,32,111,102,32,115,101,108,95,42>>, <<97,108,108,32,111,102,
 C2 == {n_notepad, n_notepad \o <<32,111,114,32>> \o n_android, <<49,32,111,102,32,110,111,116,42>>, <<97,110,121,32,111,102,32,42,100>>}
 Shapes == {[names |-> F1, conds |-> <<c>>] : c \in C1} \cup {[names |-> F2, conds |-> <<c>>] : c \in C2}
           \cup {[names |-> F1, conds |-> <<n_sel_a, <<49,32,111,102,32,95,42>>>>]}
+          \* two and three conditions with selectors that match nothing in the FIRST / the middle one
+          \cup {[names |-> F1, conds |-> <<(<<49,32,111,102,32,120,42>>), n_sel_a>>],                                       \* 1 of x* ; sel_a
+                [names |-> F1, conds |-> <<(<<49,32,111,102,32,120,42>>), n_sel_b \o <<32,111,114,32,49,32,111,102,32,122,122,42>>>>],    \* 1 of x* ; sel_b or 1 of zz*
+                [names |-> F1, conds |-> <<n_sel_a, (<<97,108,108,32,111,102,32,113,42>>), <<49,32,111,102,32,115,101,108,95,42>>>>]}   \* sel_a ; all of q* ; 1 of sel_*
 \* body: what every detection of the rule is written as - a map, a list of maps (nested detections), a list of keywords
 Rules == {[names |-> s.names, conds |-> s.conds, uid |-> u, title |-> t, fname |-> f, dir |-> d, body |-> b] :
             s \in Shapes, u \in 0..2, t \in 1..2, f \in 1..2, d \in 1..2, b \in {"map", "maps", "keywords"}}
